@@ -221,17 +221,21 @@ def runSem (j : Json) : Json :=
            | _, _ => none)
         | none => none)
       -- set-priority latches with value 1: one three-row decider that reads its own output
-      let latchCells : List (Nat × Nat × Option Nat × I32 × Sig × Arg × Arg) := (List.range core.mems.size).filterMap (fun m =>
+      let latchCells : List (Nat × Nat × Option Nat × I32 × Sig × Arg × Arg × Bool) := (List.range core.mems.size).filterMap (fun m =>
         match core.mems[m]? with
         | some cell =>
           (match cell.writes, cell.ty with
-           | [WriteRule.latch (.int k) s r true], some ty =>
-             (match latchCands c.circ (ren ty) with
+           | [WriteRule.latch (.int k) s r sp], some ty =>
+             -- the k-th cell of the source is the k-th IRMemCreate; its latch is named after the memory id
+             let cands := match (memIds[m]?).bind (fun id => idxOfId ids (id ++ "_latch")) with
+               | some e => [e]
+               | none => latchCands c.circ (ren ty) (if sp then 3 else 4)
+             (match cands with
               | [e] =>
-                if k == 1 then some (m, e, none, k, ren ty, s, r)
+                if k == 1 then some (m, e, none, k, ren ty, s, r, sp)
                 else if k == 0 then none
                 else (match multCands c.circ e (ren ty) k with
-                      | [mu] => some (m, e, some mu, k, ren ty, s, r)
+                      | [mu] => some (m, e, some mu, k, ren ty, s, r, sp)
                       | _ => none)
               | _ => none)
            | _, _ => none)
@@ -241,7 +245,7 @@ def runSem (j : Json) : Json :=
       let cellProbe : List (Nat × List Nat × Sig) :=
         cellPairs.map (fun (m, w, h, ty, _, _) => (m, [w, h], ty)) ++
         loopCells.map (fun (m, e, ty, _) => (m, [e], ty)) ++
-        latchCells.map (fun (m, e, _, _, ty, _, _) => (m, [e], ty))
+        latchCells.map (fun (m, e, _, _, ty, _, _, _) => (m, [e], ty))
       let histJson : Json :=
         if !stateful then Json.null
         else if alwaysCells.isEmpty then
@@ -258,7 +262,7 @@ def runSem (j : Json) : Json :=
               ("trace", Json.arr (trace.map (fun v => Json.num (JsonNumber.fromInt v))).toArray)])
           Json.mkObj [("iterate", Json.arr results.toArray)]
       let cutL : List Nat := cellPairs.flatMap (fun (_, w, h, _, _, _) => [w, h]) ++ loopCells.map (fun (_, e, _, _) => e) ++
-        latchCells.flatMap (fun (_, e, mu, _, _, _, _) => e :: mu.toList)
+        latchCells.flatMap (fun (_, e, mu, _, _, _, _, _) => e :: mu.toList)
       -- a stateless circuit whose only cycles go through producers that cannot emit what the reader reads is
       -- validated on its pruned form (theorems Facto.prune_run, *_end_to_end_pruned); observations stay on the original
       let usePrune : Bool := !stateful && !(c.circ.checkRanked (computeRank c.circ))
@@ -314,7 +318,7 @@ def runSem (j : Json) : Json :=
         | some (CNode.entOut k) => (entIdx k).map (fun i => (n, Bind.many [i]))
         | _ => none)
       let enablePairs : List (Nat × Arg) := enableObs.filterMap (fun o => o.enable.map (fun w => (o.idx, w)))
-      let bindArr := inferBindings vc core.nodes (memRoots ++ entOutRoots ++ roots ++ cellPairs.flatMap (fun (_, w, _, ty, d, en) => proposeGated c.circ core.nodes w ty d en) ++ loopCells.flatMap (fun (_, e, ty, d) => proposeAlways c.circ core.nodes e ty d) ++ latchCells.flatMap (fun (_, e, _, _, ty, s, r) => proposeLatch c.circ core.nodes e ty s r)) enablePairs
+      let bindArr := inferBindings vc core.nodes (memRoots ++ entOutRoots ++ roots ++ cellPairs.flatMap (fun (_, w, _, ty, d, en) => proposeGated c.circ core.nodes w ty d en) ++ loopCells.flatMap (fun (_, e, ty, d) => proposeAlways c.circ core.nodes e ty d) ++ latchCells.flatMap (fun (_, e, _, _, ty, s, r, _) => proposeLatch c.circ core.nodes e ty s r)) enablePairs
       -- nodes the validator rejects (reported), then withdrawn from the binding together with whatever depended on
       -- them, until every remaining bound node passes: the theorems then speak about the results that are still bound
       let bindArr0 := bindArr
@@ -333,10 +337,11 @@ def runSem (j : Json) : Json :=
           Json.mkObj [("mem", toJson m), ("write_gate", toJson w), ("hold_gate", toJson h), ("type", Json.str ty),
             ("proved", Json.bool (stateful && allOk && cutOK c.circ cutL &&
               gatedCellIs c.circ vc core.nodes bindF w h ty d en))])).toArray),
-        ("latch_cells", Json.arr (latchCells.map (fun (m, e, mu, k, ty, sArg, rArg) =>
+        ("latch_cells", Json.arr (latchCells.map (fun (m, e, mu, k, ty, sArg, rArg, sp) =>
           Json.mkObj [("mem", toJson m), ("entity", toJson e), ("type", Json.str ty), ("multiplier", match mu with | some x => toJson x | none => Json.null),
+            ("set_priority", Json.bool sp),
             ("proved", Json.bool (stateful && allOk && cutOK c.circ cutL &&
-              latchIs c.circ vc core.nodes bindF e ty sArg rArg &&
+              latchIs c.circ vc core.nodes bindF e ty sArg rArg sp &&
               (match mu with | some x => multIs c.circ e x ty k | none => true)))])).toArray),
         ("loop_cells", Json.arr (loopCells.map (fun (m, e, ty, d) =>
           Json.mkObj [("mem", toJson m), ("entity", toJson e), ("type", Json.str ty),
@@ -416,7 +421,9 @@ def runSem (j : Json) : Json :=
         ("n_nodes", core.nodes.size), ("n_obs", obs.length), ("n_inputs", inputs.length),
         ("obs", Json.arr (obs.map (fun o => Json.str o.name)).toArray),
         ("claimed", Json.arr ((obs.filter (·.claim.isSome)).map (fun o => Json.str o.name)).toArray),
-        ("unobserved", Json.arr (((core.named.toList.filter (·.topLevel)).filter (fun nm => !obs.any (·.name == nm.name))).map (fun nm => Json.str nm.name)).toArray),
+        -- results (top-level names nothing consumes) that are compared nowhere; a consumed value without an entity of
+        -- its own (a wire-merged bundle) is seen through its consumers
+        ("unobserved", Json.arr (((core.named.toList.filter (fun nm => nm.topLevel && !core.consumed.contains nm.name)).filter (fun nm => !obs.any (·.name == nm.name))).map (fun nm => Json.str nm.name)).toArray),
         ("unsupported", Json.arr (unsupported.map Json.str).toArray),
         ("wire", wireJson), ("history", histJson), ("valuations", done), ("mismatches", Json.arr (ms.map Mismatch.toJson).toArray)]
 
